@@ -1,5 +1,10 @@
 import RpgpProofs.Message
 import RpgpProofs.Seipd1
+import RpgpProofs.E2E
+import RpgpProofs.E2ELiteral
+import RpgpProofs.E2EToy
+import RpgpProps.C06
+import RpgpProps.C09
 /-!
 # C01 — message round trip: what the builder emits, the reader returns unchanged
 
@@ -80,5 +85,451 @@ def toyPrims : MsgPrims where
 
 example : SigLaws toyPrims := ⟨by intro i d; simp [toyPrims]⟩
 example : CompLaws toyPrims := ⟨by intro a x; rfl⟩
+
+
+/-! # End to end (layer `Rpgp.E2E`, `RpgpModel/E2E.lean`)
+
+`buildFull cfg src` = `armor? ( SKESK.. ‖ PKESK.. ‖ SEIPD(v1|v2) ( compressed? ( OPS.. ‖ literal ‖ SIG.. ) ) )`,
+`readFull secret msg` = `dearmor? → split ESKs → session key from ONE secret → decrypt → decompress →
+literal, pair and verify signatures` — every step being the model another property is about (C05 wire
+layouts, C06/C11 digests, C10 armor, C12 session-key packets and encryptors, C15 ESK filter, C17
+framing, C03 decryptors, C18 session-key search).  The theorems quantify over every payload (all
+lengths), every read schedule `src` of the builder's source, every chunk exponent 9..30, fixed or
+partial literal framing, any number of signers (v4 / v6, binary / text), optional compression with
+any algorithm octet, SEIPDv1 with any cipher octet / SEIPDv2 with any cipher, AEAD and chunk octet,
+any numbers of password and key recipients (anonymous or not), armor with / without checksum, and
+every way `chunks` of handing the message to the reader. -/
+open Rpgp.E2E
+
+/-! ## constants of the composition: RFC values, writer and reader sites agree -/
+
+/-- packet type IDs of RFC 9580 §5 as the `Tag` enum has them -/
+theorem e2e_tags_rfc :
+    Gen.e2eTagPkesk = 1 ∧ Gen.e2eTagSignature = 2 ∧ Gen.e2eTagSkesk = 3 ∧ Gen.e2eTagOps = 4 ∧
+    Gen.e2eTagCompressed = 8 ∧ Gen.e2eTagLiteral = 11 ∧ Gen.e2eTagSeipd = 18 := by decide
+
+/-- … and they are the ones the sibling layers extracted at their own sites -/
+theorem e2e_tags_agree_with_layers : Gen.e2eTagSeipd = Gen.tagSeipd ∧ Gen.e2eTagSkesk = Gen.tagSkesk := by decide
+
+/-- SEIPD version octets: `Config::to_writer` and `Config::try_from_reader` agree, salt is 32 octets -/
+theorem e2e_seipd_version_sites_agree :
+    Gen.e2eSeipdV1Octet = Gen.e2eSeipdV1OctetRd ∧ Gen.e2eSeipdV2Octet = Gen.e2eSeipdV2OctetRd ∧
+    Gen.e2eSeipdV1Octet = 1 ∧ Gen.e2eSeipdV2Octet = 2 ∧ Gen.e2eSeipdSaltLenRd = 32 := by decide
+
+/-- literal mode octets `b` / `u`; four-octet date; every data tag may carry partial lengths -/
+theorem e2e_literal_constants :
+    Gen.e2eModeBinary = 0x62 ∧ Gen.e2eModeUtf8 = 0x75 ∧ Gen.e2eLitTimestampLen = 32 ∧
+    partialAllowed Gen.e2eTagLiteral = true ∧ partialAllowed Gen.e2eTagCompressed = true ∧
+    partialAllowed Gen.e2eTagSeipd = true := by decide
+
+/-- the facts about the literal level the theorems below state are still what the source says: the
+literal header is written with an empty name and zero date, a `Utf8` source is checked on write and
+not on read, and the smallest chunk the builder accepts is the reader's minimum first partial length.
+(Two further translator items, `e2eSignLenUnknown` and `e2eSkesksBeforePkesks`, record that the
+containers are always partial and that SKESKs precede PKESKs; the property does not depend on either —
+the reader accepts both framings and any ESK order — so they are evidence, not obligations.) -/
+theorem e2e_builder_shape :
+    Gen.e2eLitHeaderNameEmpty = 1 ∧ Gen.e2eUtf8CheckedOnWrite = 1 ∧ Gen.e2eUtf8CheckedOnRead = 0 ∧
+    Gen.e2eBuilderMinChunk = Gen.rdFirstPartialMin ∧ Gen.e2eBuilderMinChunk = 2 ^ 9 := by decide
+
+/-! ## 1. the round trip -/
+
+/-- **End-to-end round trip, guarded form.**  For every configuration and payload, every intended
+recipient secret presented alone (a password of the message; an unlocked secret key holding a
+recipient component; anything for an unencrypted message) and every chunking of the message:
+`readFull` returns the payload, the literal header the builder wrote and `verified = replicate n true`.
+Hypotheses: primitive correctness laws `Laws`, the size / range conditions `WF`, and the guard
+`NoForeignOpen` (the presented secret opens no ESK of the message to a *different* session key). -/
+theorem e2e_roundtrip_partial (P : Prims) (L : Laws P) (o : ReadOpts) (c : Cfg) (src : List Bytes)
+    (wf : E2E.WF P o c src) (m : Bytes) (hb : buildFull P c src = some m)
+    (secret : Secret) (hint : Intended P c secret) (hrob : NoForeignOpen P c secret)
+    (chunks : List Bytes) (hflat : chunks.flatten = m) :
+    readFull P o secret c.armor.isSome chunks = some (expected c src) :=
+  roundtrip_guarded P L o c src wf m hb secret hint hrob chunks hflat
+
+/-
+FULL STATEMENT (primitive *correctness* laws only, no guard): FALSE of the code as it stands for one
+class of inputs — SEIPDv1 messages with two or more SKESK v4 packets read with one of the passwords
+(known finding D18b, `C18.password_alone_false_positive_witness`, replayed by `harness/src/props/c01.rs`
+corpus entry 357): SKESK v4 has no integrity, the plausibility check accepts ≈ 1 foreign packet in 50,
+and `find_session_key` then reports `inconsistent session keys detected`.
+-/
+/-- **End-to-end round trip.**  As above, with the guard discharged from *robustness laws of the
+primitives* (`RobustLaws`): a PKESK does not decrypt under another key, an AEAD box opens only to what
+was sealed, and — the one law real CFB does not give, see D18b — an SKESK v4 body does not decrypt
+plausibly under another password.  Every other hypothesis is a correctness law or a size bound. -/
+theorem e2e_roundtrip (P : Prims) (L : Laws P) (R : RobustLaws P) (o : ReadOpts) (c : Cfg) (src : List Bytes)
+    (wf : E2E.WF P o c src) (m : Bytes) (hb : buildFull P c src = some m)
+    (hpk : ∀ e, c.encryption = some e → ∀ r ∈ e.keys, PkLaw P r.key r.isX)
+    (secret : Secret) (hint : Intended P c secret)
+    (chunks : List Bytes) (hflat : chunks.flatten = m) :
+    readFull P o secret c.armor.isSome chunks = some (expected c src) := by
+  obtain ⟨b, hbin, _⟩ := buildFull_some_inv P c src m hb
+  obtain ⟨_, S, hS, _⟩ := buildBinary_some_inv P c src b hbin
+  refine roundtrip_guarded P L o c src wf m hb secret hint ?_ chunks hflat
+  cases secret with
+  | none => trivial
+  | key K => exact noForeignOpen_key P R.pk_foreign o c src wf S hS K hpk
+  | password pw =>
+    intro e he
+    cases hv : e.container.isV2 with
+    | true =>
+      exact noForeignOpen_password_v2 P R.aead_committing c pw (fun e' he' => (wf.enc S e' hS he').2.1)
+        (fun e' he' => by rw [he] at he'; cases he'; exact hv) e he
+    | false =>
+      exact noForeignOpen_password_v1 P L.crypto R.skesk4_committing c pw (fun e' he' => (wf.enc S e' hS he').2.1)
+        (fun e' he' => by rw [he] at he'; cases he'; exact hv) e he
+
+/-- the same without the law CFB does not provide, for everything D18b does not touch: key recipients
+(any container), password recipients of SEIPDv2 messages, and a SEIPDv1 message with a single
+password.  The guard is decidable on the configuration and the kind of secret. -/
+theorem e2e_roundtrip_no_d18b_partial (P : Prims) (L : Laws P)
+    (Rpk : ∀ p j d v6, p ≠ j → P.pkDec p (P.pkEnc j d v6) v6 = none)
+    (Raead : ∀ s m k k' n ad pt x, P.aeadOpen s m k' n ad (P.sym.aead s m k n ad pt) = some x → x = pt)
+    (o : ReadOpts) (c : Cfg) (src : List Bytes)
+    (wf : E2E.WF P o c src) (m : Bytes) (hb : buildFull P c src = some m)
+    (hpk : ∀ e, c.encryption = some e → ∀ r ∈ e.keys, PkLaw P r.key r.isX)
+    (secret : Secret) (hint : Intended P c secret)
+    (hguard : ∀ pw, secret = .password pw → ∀ e, c.encryption = some e →
+      e.container.isV2 = true ∨ e.passwords.length ≤ 1)
+    (chunks : List Bytes) (hflat : chunks.flatten = m) :
+    readFull P o secret c.armor.isSome chunks = some (expected c src) := by
+  obtain ⟨b, hbin, _⟩ := buildFull_some_inv P c src m hb
+  obtain ⟨_, S, hS, hcase⟩ := buildBinary_some_inv P c src b hbin
+  refine roundtrip_guarded P L o c src wf m hb secret hint ?_ chunks hflat
+  cases hint with
+  | unencrypted _ henc =>
+    cases secret with
+    | none => trivial
+    | password pw => intro e he; rw [henc] at he; cases he
+    | key K => intro e he; rw [henc] at he; cases he
+  | key e r K he hr hK hver hlaw => exact noForeignOpen_key P Rpk o c src wf S hS K hpk
+  | password e r he hr =>
+    intro e' he'
+    have : e' = e := by rw [he] at he'; exact (Option.some.inj he').symm
+    subst this
+    rcases hguard r.pw rfl e' he with hv | hone
+    · exact noForeignOpen_password_v2 P Raead c r.pw (fun e'' he'' => (wf.enc S e'' hS he'').2.1)
+        (fun e'' he'' => by rw [he] at he''; cases he''; exact hv) e' he
+    · -- a single SKESK: the only packet the password is tried on is its own
+      exact noForeignOpen_single_password P L o c src wf b hbin e' he r hr hone e' he
+
+/-! ## 2. corollaries -/
+
+/-- **unencrypted messages** (signed and/or compressed or neither): nothing needs to be presented -/
+theorem e2e_roundtrip_unencrypted (P : Prims) (L : Laws P) (o : ReadOpts) (c : Cfg) (src : List Bytes)
+    (wf : E2E.WF P o c src) (m : Bytes) (hb : buildFull P c src = some m) (henc : c.encryption = none)
+    (secret : Secret) (chunks : List Bytes) (hflat : chunks.flatten = m) :
+    readFull P o secret c.armor.isSome chunks = some (expected c src) := by
+  refine roundtrip_guarded P L o c src wf m hb secret (.unencrypted secret henc) ?_ chunks hflat
+  cases secret with
+  | none => trivial
+  | password pw => intro e he; rw [henc] at he; cases he
+  | key K => intro e he; rw [henc] at he; cases he
+
+/-- **signed only**: `OPS₁..OPSₙ literal SIGₙ..SIG₁`, no compression, no encryption, no armor: every
+signature verifies under its signer's key -/
+theorem e2e_roundtrip_signed_only (P : Prims) (L : Laws P) (o : ReadOpts) (c : Cfg) (src : List Bytes)
+    (wf : E2E.WF P o c src) (m : Bytes) (hb : buildFull P c src = some m)
+    (henc : c.encryption = none) (_hcomp : c.compression = none) (harm : c.armor = none) :
+    readFull P o .none false [m] =
+      some { payload := src.flatten, litMeta := ⟨c.mode, [], [0, 0, 0, 0]⟩,
+             verified := List.replicate c.signers.length true } := by
+  have := e2e_roundtrip_unencrypted P L o c src wf m hb henc .none [m] (by simp)
+  rw [harm] at this
+  exact this
+
+/-- **literal only**: no signer, no compression, no encryption — the payload and its header -/
+theorem e2e_roundtrip_literal_only (P : Prims) (L : Laws P) (o : ReadOpts) (c : Cfg) (src : List Bytes)
+    (wf : E2E.WF P o c src) (m : Bytes) (hb : buildFull P c src = some m)
+    (hsig : c.signers = []) (henc : c.encryption = none) (hcomp : c.compression = none) (harm : c.armor = none) :
+    readFull P o .none false [m] =
+      some { payload := src.flatten, litMeta := ⟨c.mode, [], [0, 0, 0, 0]⟩, verified := [] } := by
+  have := e2e_roundtrip_signed_only P L o c src wf m hb henc hcomp harm
+  rw [hsig] at this
+  exact this
+
+/-! ## 3. schedules -/
+
+/-- **reader side**: however the source hands the message to the reader (armored: any cuts, inside the
+BEGIN line, the base64, the checksum, the footer — C10 `schedule_independent_no_headers`; binary: the
+packet parser pulls bytes as it needs them), the result is that of the one-view read.  No hypothesis
+on the primitives at all. -/
+theorem e2e_schedule_independent (P : Prims) (o : ReadOpts) (secret : Secret) (c : Cfg) (src : List Bytes)
+    (m : Bytes) (hb : buildFull P c src = some m) (chunks : List Bytes) (hflat : chunks.flatten = m) :
+    readFull P o secret c.armor.isSome chunks = readFull P o secret c.armor.isSome [m] := by
+  obtain ⟨b, _, hm⟩ := buildFull_some_inv P c src m hb
+  rw [readFull_chunks P o secret c m b hm chunks hflat, readFull_chunks P o secret c m b hm [m] (by simp)]
+
+/-- **builder side**: the message depends on the payload only, not on how the source delivers it:
+every signer's hasher (C06 `sign_chunk_indep`) and the `Utf8` literal check (C09
+`utf8_check_chunk_independent`, C14 `crlfCheck_iff`) are schedule independent -/
+theorem e2e_source_schedule_independent (P : Prims) (LV : VutLaws P.vut) (hnil : P.vut [] = 0)
+    (c : Cfg) (src src' : List Bytes) (h : src.flatten = src'.flatten) :
+    buildFull P c src = buildFull P c src' := by
+  have hok : srcOk P c.mode src = srcOk P c.mode src' := by
+    unfold srcOk
+    by_cases hm : c.mode.toNat = Gen.e2eModeUtf8
+    · simp only [hm, if_true]
+      have h1 : utf8CheckChunks P.vut [] src = utf8CheckChunks P.vut [] src' := by
+        rw [Bool.eq_iff_iff, C09.utf8_check_chunk_independent P.vut LV hnil, C09.utf8_check_chunk_independent P.vut LV hnil, h]
+      have h2 : crlfCheck src = crlfCheck src' := by
+        rw [Bool.eq_iff_iff, crlfCheck_iff, crlfCheck_iff, h]
+      rw [h1, h2]
+    · simp only [hm, if_false]
+  have hsig : sigBodies P c src = sigBodies P c src' := by
+    unfold sigBodies
+    apply List.map_congr_left
+    intro s _
+    rw [C06.sign_chunk_indep s.keyVer (sigCfg c.signTyp s) src src' h]
+  have hS : E2E.signedStream P c src = E2E.signedStream P c src' := by
+    unfold E2E.signedStream
+    rw [hsig, h]
+  unfold buildFull buildBinary
+  rw [hok, hS]
+
+/-! ## 4. the signature part is not an opaque parameter -/
+
+/-- **what is hashed, both sides.**  For every signer of the builder and any reads `src` of the
+source: (i) its hasher was fed exactly the C06 / RFC 9580 §5.2.4 pre-image
+`salt ‖ data ‖ ver typ pk hash len(area) area ‖ ver FF len32` with `data` = the payload for a binary
+signature and `canon payload` for a text signature; (ii) the reader's hash slot — created from the
+*parsed* OPS packet (salt, text mode) and finished with the fields of the *parsed* signature packet,
+over reads of any size `B` — is the same byte string; (iii) a v6 pre-image starts with the salt, a v4
+one with the data. -/
+theorem e2e_preimage_instantiated (P : Prims) (c : Cfg) (src : List Bytes) (sg : Signer) (isLast : Bool)
+    (B : Nat) (hB : 0 < B) (pre : Bytes)
+    (h : SV.signConfig sg.keyVer (sigCfg c.signTyp sg) src = some pre) :
+    pre = SV.preimage (sigCfg c.signTyp sg) (SV.dataHashed (sigCfg c.signTyp sg).textMode src.flatten) ∧
+    ((opsOfWire (opsPacket c.signTyp sg isLast)).bind fun so =>
+      (cfgOfSig (mkSig P c.signTyp sg pre)).bind fun t => SV.verifyInlineOps B so t.1 src.flatten) = some pre ∧
+    (c.signTyp.toNat = Gen.sigTypeBinary → SV.dataHashed (sigCfg c.signTyp sg).textMode src.flatten = src.flatten) ∧
+    (c.signTyp.toNat = Gen.sigTypeText → SV.dataHashed (sigCfg c.signTyp sg).textMode src.flatten = canon src.flatten) ∧
+    (sg.keyVer = 6 → pre = sg.salt ++ SV.dataHashed (sigCfg c.signTyp sg).textMode src.flatten ++ SV.sigTail (sigCfg c.signTyp sg)) ∧
+    (sg.keyVer = 4 → pre = SV.dataHashed (sigCfg c.signTyp sg).textMode src.flatten ++ SV.sigTail (sigCfg c.signTyp sg)) := by
+  obtain ⟨hal, _, hp⟩ := signConfig_some_inv _ _ _ _ h
+  have hv : sg.keyVer = 4 ∨ sg.keyVer = 6 := SV.signAligned_wfver _ _ hal
+  have hwf : SV.WFCfg (sigCfg c.signTyp sg) := by
+    unfold SV.WFCfg sigCfg
+    rcases hv with h | h <;> simp [h]
+  refine ⟨hp, ?_, ?_, ?_, ?_, ?_⟩
+  · rw [opsOfWire_opsPacket, cfgOfSig_mkSig P c.signTyp sg pre hv]
+    simp only [Option.bind_some]
+    rw [SV.verifyInlineOps_eq B hB _ hwf, hp]
+  · intro hb
+    have : (sigCfg c.signTyp sg).textMode = false := by
+      simp only [SV.SigCfg.textMode, sigCfg, hb]; decide
+    simp [this, SV.dataHashed]
+  · intro ht
+    have : (sigCfg c.signTyp sg).textMode = true := by
+      simp only [SV.SigCfg.textMode, sigCfg, ht]; decide
+    simp [this, SV.dataHashed]
+  · intro h6
+    rw [hp]; simp [SV.preimage, sigCfg, h6]
+  · intro h4
+    rw [hp]; simp [SV.preimage, sigCfg, h4]
+
+/-- … in the vocabulary of C06: the builder side (`signBuilder`, any source chunking) and the reader
+side (`verifyInlineOps`, any read size) compute one function of the payload -/
+theorem e2e_preimage_is_c06 (c : Cfg) (src : List Bytes) (sg : Signer) (B : Nat) (hB : 0 < B) (pre : Bytes)
+    (h : SV.signConfig sg.keyVer (sigCfg c.signTyp sg) src = some pre) :
+    (SV.signBuilder [(sg.keyVer, sigCfg c.signTyp sg)] src).head? = some (some pre) ∧
+    SV.verifyInlineOps B (SV.opsOf (sigCfg c.signTyp sg)) (sigCfg c.signTyp sg) src.flatten = some pre := by
+  obtain ⟨hal, hty, hp⟩ := signConfig_some_inv _ _ _ _ h
+  have hv : sg.keyVer = 4 ∨ sg.keyVer = 6 := SV.signAligned_wfver _ _ hal
+  have hwf : SV.WFCfg (sigCfg c.signTyp sg) := by
+    unfold SV.WFCfg sigCfg
+    rcases hv with h | h <;> simp [h]
+  have := C06.inline_preimage_is_one_function B hB sg.keyVer (sigCfg c.signTyp sg) hwf hal hty src src.flatten rfl
+  rw [hp]; exact this
+
+/-- the layer theorem `message_roundtrip` with its `preimage` parameter instantiated by the C06
+function (`salt ‖ dataHashed ‖ fields ‖ trailer` of per-signer configurations `cfgs`) -/
+theorem message_roundtrip_preimage_instantiated (base : MsgPrims) (cfgs : Nat → SV.SigCfg)
+    (LS : SigLaws { base with preimage := fun i d => SV.preimage (cfgs i) (SV.dataHashed (cfgs i).textMode d) })
+    (LC : CompLaws { base with preimage := fun i d => SV.preimage (cfgs i) (SV.dataHashed (cfgs i).textMode d) })
+    (LA : AeadLaws base.aead 16) (c : MsgCfg) (payload : Bytes)
+    (wf : WF { base with preimage := fun i d => SV.preimage (cfgs i) (SV.dataHashed (cfgs i).textMode d) } c payload) :
+    readMsg { base with preimage := fun i d => SV.preimage (cfgs i) (SV.dataHashed (cfgs i).textMode d) } c
+        (buildMsg { base with preimage := fun i d => SV.preimage (cfgs i) (SV.dataHashed (cfgs i).textMode d) } c payload) =
+      some { payload := payload, verified := List.replicate c.signers.length true } :=
+  message_roundtrip _ LS LC LA c payload wf
+
+/-! ## 5. literal metadata -/
+
+/-- what comes back for a message of the builder: the mode octet it was given, the (empty) file name
+and the zero date `LiteralDataHeader::new` writes — the name handed to `from_bytes` / `from_reader` /
+`from_file` is dropped by the builder (`_name` is unused), which the property ("what the builder emits
+comes back") does not forbid -/
+theorem e2e_literal_metadata (c : Cfg) (src : List Bytes) :
+    (expected c src).litMeta = ⟨c.mode, [], [0, 0, 0, 0]⟩ ∧ (expected c src).payload = src.flatten := ⟨rfl, rfl⟩
+
+/-- the reader itself returns *any* literal header unchanged — every mode octet, every file name of
+0..255 octets, every date — together with the body, for every body length (model-written packet) -/
+theorem e2e_reader_returns_any_literal_header (P : Prims) (o : ReadOpts) (mode : Byte) (name created data : Bytes)
+    (hn : name.length < 256) (hc : created.length = 4) (hl : 2 + name.length + 4 + data.length < 4294967296) :
+    E2E.readSigned P o (fixedPkt Gen.e2eTagLiteral (mode :: name.length.toUInt8 :: name ++ created ++ data)) =
+      some { payload := data, litMeta := ⟨mode, name, created⟩, verified := o.verifiers.map fun _ => false } :=
+  readSigned_literal_any P o mode name created data hn hc hl
+
+/-- **`Utf8` literals, builder side**: the source of a `u` literal is read through
+`CrLfCheckReader<Utf8CheckReader<_>>`; whatever the read schedule, the builder emits a message iff
+… only if the whole payload is valid UTF-8 *and* every LF is preceded by CR; otherwise it refuses -/
+theorem e2e_utf8_builder_refuses (P : Prims) (LV : VutLaws P.vut) (hnil : P.vut [] = 0) (c : Cfg)
+    (hm : c.mode.toNat = Gen.e2eModeUtf8) (src : List Bytes)
+    (hbad : ¬ (P.vut src.flatten = src.flatten.length ∧ canon src.flatten = src.flatten)) :
+    buildFull P c src = none := by
+  apply buildFull_none_of_srcOk_false
+  cases h : srcOk P c.mode src with
+  | false => rfl
+  | true => exact absurd ((srcOk_utf8_iff P LV hnil c.mode hm src).mp h) hbad
+
+/-- … and a message the builder did emit for a `u` literal carries valid UTF-8 with CR LF line ends -/
+theorem e2e_utf8_emitted_is_valid (P : Prims) (LV : VutLaws P.vut) (hnil : P.vut [] = 0) (c : Cfg)
+    (hm : c.mode.toNat = Gen.e2eModeUtf8) (src : List Bytes) (m : Bytes) (hb : buildFull P c src = some m) :
+    P.vut src.flatten = src.flatten.length ∧ canon src.flatten = src.flatten := by
+  obtain ⟨b, hbin, _⟩ := buildFull_some_inv P c src m hb
+  obtain ⟨hok, _⟩ := buildBinary_some_inv P c src b hbin
+  exact (srcOk_utf8_iff P LV hnil c.mode hm src).mp hok
+
+/-- every other mode (`b`, `t`, `m`, unknown octets) is passed through unchecked -/
+theorem e2e_other_modes_unchecked (P : Prims) (mode : Byte) (hm : mode.toNat ≠ Gen.e2eModeUtf8) (src : List Bytes) :
+    srcOk P mode src = true := srcOk_other P mode hm src
+
+/-- **`Utf8` literals, reader side — what the code does**: `LiteralDataReader` does *not* check.  A
+`u` literal whose body is the single octet FF (not UTF-8) is returned as it is, with mode `u`
+(`Gen.e2eUtf8CheckedOnRead = 0`, `e2e_builder_shape`; the same packet through the real reader is a
+correspondence case of `harness/src/props/c01.rs`).  So "refused on both sides" holds on the writing
+side only; on the reading side the check is left to `LiteralData::try_into_string` / the caller. -/
+theorem e2e_utf8_reader_does_not_check (P : Prims) (o : ReadOpts) :
+    E2E.readSigned P o (fixedPkt Gen.e2eTagLiteral (0x75 :: (0 : Nat).toUInt8 :: [] ++ [0, 0, 0, 0] ++ [0xFF])) =
+      some { payload := [0xFF], litMeta := ⟨0x75, [], [0, 0, 0, 0]⟩, verified := o.verifiers.map fun _ => false } ∧
+    utf8ValidUpTo [0xFF] = 0 :=
+  ⟨readSigned_literal_any P o 0x75 [] [0, 0, 0, 0] [0xFF] (by decide) rfl (by decide), by decide⟩
+
+/-! ## 6. non-vacuity: toy primitives satisfying the laws, two concrete configurations
+
+`RpgpModel/E2EToy.lean`: configuration A = 2 signers (v4 + v6), zip, SEIPDv2 / OCB with 64-octet
+chunks, one password + one key recipient, armored with checksum, partial literal framing (chunk 512);
+configuration B = the same signers with text signatures, SEIPDv1 / AES-128, password + anonymous key
+recipient, fixed-length literal, binary.  The hypotheses of the theorems above are met for *every*
+payload length up to 10⁶ (so in particular on every internal boundary), the builder succeeds, and the
+conclusions hold; the driver op `e2e_toy` additionally *executes* `readFull ∘ buildFull` on them. -/
+
+/-- the toy primitives satisfy every correctness law the theorems assume -/
+theorem toy_prims_satisfy_laws : Laws Toy.prims ∧ ∀ j, PkLaw Toy.prims j false :=
+  ⟨Toy.toy_laws, Toy.toy_pkLaw⟩
+
+/-- the presented toy secrets open nothing else (one SKESK; the signing primary of the presented
+key does not decrypt the PKESK) -/
+theorem toy_key_opens_nothing_else (e : Encryption) (hk : e.keys = [Toy.rcptK] ∨ e.keys = [{ Toy.rcptK with anonymous := true }])
+    (hsym : e.container.sym = 7) (hsk : e.sessionKey = List.replicate 16 11) :
+    ∀ c' ∈ Toy.keyK.comps, ∀ p, c'.secret = .plain p → ∀ r' ∈ e.keys, ∀ k,
+      Toy.prims.pkDec p (pkVals Toy.prims e r') e.container.isV2 = some k → k = sessionKeyOf e := by
+  intro c' hc' p hp r' hr' k hkk
+  have hr'' : r'.key = 3 ∧ r'.isX = false := by
+    rcases hk with h | h <;> (rw [h] at hr'; simp only [List.mem_singleton] at hr'; subst hr'; exact ⟨rfl, rfl⟩)
+  have hp' : p = 99 ∨ p = 3 := by
+    simp only [Ring.SecKey.comps, Toy.keyK, List.mem_cons, List.not_mem_nil, or_false] at hc'
+    rcases hc' with rfl | rfl
+    · left; simpa using hp.symm
+    · right; simpa using hp.symm
+  rcases hp' with rfl | rfl
+  · exfalso
+    cases hc : e.container <;> simp [pkVals, hc, hr''.1, Toy.prims] at hkk
+  · have hlaw := Toy.toy_pkLaw 3
+    cases hc : e.container with
+    | v1 sy pre =>
+      simp only [hc, Container.sym] at hsym
+      subst hsym
+      simp only [pkVals, hc, hr''.1, hr''.2, Container.isV2] at hkk
+      rw [hlaw.1 7 e.sessionKey (by decide) (by decide) (by rw [hsk]; decide)] at hkk
+      simp only [sessionKeyOf, hc]
+      exact (Option.some.inj hkk).symm
+    | v2 sy ae cs sa =>
+      simp only [pkVals, hc, hr''.1, hr''.2, Container.isV2] at hkk
+      rw [hlaw.2] at hkk
+      simp only [sessionKeyOf, hc]
+      exact (Option.some.inj hkk).symm
+
+/-- **configuration A**, password recipient: for every payload length ≤ 10⁶ and every two-way cut of
+the armored text, the builder emits a message and the reader returns payload, header and two valid
+signatures -/
+theorem e2e_nonvacuous_A_password (n : Nat) (hn : n ≤ 1000000) (cut : Nat) :
+    ∃ m, buildFull Toy.prims Toy.cfgA [Toy.payload n] = some m ∧
+      readFull Toy.prims Toy.opts (.password Toy.rcptP.pw) true [m.take cut, m.drop cut] =
+        some { payload := Toy.payload n, litMeta := ⟨0x62, [], [0, 0, 0, 0]⟩, verified := [true, true] } := by
+  obtain ⟨m, hm⟩ := Option.isSome_iff_exists.mp (Toy.build_isSome Toy.cfgA Toy.encV2 n rfl (Or.inl rfl) rfl rfl (Or.inr rfl))
+  refine ⟨m, hm, ?_⟩
+  obtain ⟨b, hbin, _⟩ := buildFull_some_inv Toy.prims Toy.cfgA [Toy.payload n] m hm
+  have hr : Toy.rcptP ∈ Toy.encV2.passwords := by simp [Toy.encV2]
+  have := e2e_roundtrip_partial Toy.prims Toy.toy_laws Toy.opts Toy.cfgA [Toy.payload n] (Toy.wf_A n hn) m hm
+    (.password Toy.rcptP.pw) (.password Toy.encV2 Toy.rcptP rfl hr)
+    (noForeignOpen_single_password Toy.prims Toy.toy_laws Toy.opts Toy.cfgA _ (Toy.wf_A n hn) b hbin Toy.encV2 rfl Toy.rcptP hr (by decide))
+    [m.take cut, m.drop cut] (by simp)
+  simpa [expected, Toy.cfgA, Toy.flatten_payload, (by decide : be32 0 = [0, 0, 0, 0])] using this
+
+/-- **configuration A**, key recipient (a `SignedSecretKey` with a signing primary and the encryption
+subkey) -/
+theorem e2e_nonvacuous_A_key (n : Nat) (hn : n ≤ 1000000) :
+    ∃ m, buildFull Toy.prims Toy.cfgA [Toy.payload n] = some m ∧
+      readFull Toy.prims Toy.opts (.key Toy.keyK) true [m] =
+        some { payload := Toy.payload n, litMeta := ⟨0x62, [], [0, 0, 0, 0]⟩, verified := [true, true] } := by
+  obtain ⟨m, hm⟩ := Option.isSome_iff_exists.mp (Toy.build_isSome Toy.cfgA Toy.encV2 n rfl (Or.inl rfl) rfl rfl (Or.inr rfl))
+  refine ⟨m, hm, ?_⟩
+  have hr : Toy.rcptK ∈ Toy.encV2.keys := by simp [Toy.encV2]
+  have hK : HoldsKey Toy.keyK Toy.rcptK := ⟨⟨Toy.rcptK.ident, .plain 3⟩, by simp [Ring.SecKey.comps, Toy.keyK], rfl, rfl⟩
+  have := e2e_roundtrip_partial Toy.prims Toy.toy_laws Toy.opts Toy.cfgA [Toy.payload n] (Toy.wf_A n hn) m hm
+    (.key Toy.keyK) (.key Toy.encV2 Toy.rcptK Toy.keyK rfl hr hK (by decide) (Toy.toy_pkLaw 3))
+    (by
+      intro e he
+      have : e = Toy.encV2 := by simpa [Toy.cfgA] using he.symm
+      subst this
+      exact toy_key_opens_nothing_else Toy.encV2 (Or.inl rfl) rfl rfl)
+    [m] (by simp)
+  simpa [expected, Toy.cfgA, Toy.flatten_payload, (by decide : be32 0 = [0, 0, 0, 0])] using this
+
+/-- **configuration B** (SEIPDv1, text signatures, fixed-length literal, anonymous key recipient) -/
+theorem e2e_nonvacuous_B (n : Nat) (hn : n ≤ 1000000) :
+    ∃ m, buildFull Toy.prims Toy.cfgB [Toy.payload n] = some m ∧
+      readFull Toy.prims Toy.opts (.password Toy.rcptP.pw) false [m] =
+        some { payload := Toy.payload n, litMeta := ⟨0x62, [], [0, 0, 0, 0]⟩, verified := [true, true] } ∧
+      readFull Toy.prims Toy.opts (.key Toy.keyK) false [m] =
+        some { payload := Toy.payload n, litMeta := ⟨0x62, [], [0, 0, 0, 0]⟩, verified := [true, true] } := by
+  obtain ⟨m, hm⟩ := Option.isSome_iff_exists.mp (Toy.build_isSome Toy.cfgB Toy.encV1 n rfl (Or.inr rfl) rfl rfl (Or.inl rfl))
+  refine ⟨m, hm, ?_, ?_⟩
+  · obtain ⟨b, hbin, _⟩ := buildFull_some_inv Toy.prims Toy.cfgB [Toy.payload n] m hm
+    have hr : Toy.rcptP ∈ Toy.encV1.passwords := by simp [Toy.encV1]
+    have := e2e_roundtrip_partial Toy.prims Toy.toy_laws Toy.opts Toy.cfgB [Toy.payload n] (Toy.wf_B n hn) m hm
+      (.password Toy.rcptP.pw) (.password Toy.encV1 Toy.rcptP rfl hr)
+      (noForeignOpen_single_password Toy.prims Toy.toy_laws Toy.opts Toy.cfgB _ (Toy.wf_B n hn) b hbin Toy.encV1 rfl Toy.rcptP hr (by decide))
+      [m] (by simp)
+    simpa [expected, Toy.cfgB, Toy.cfgA, Toy.flatten_payload, (by decide : be32 0 = [0, 0, 0, 0])] using this
+  · have hr : ({ Toy.rcptK with anonymous := true } : KeyRcpt) ∈ Toy.encV1.keys := by simp [Toy.encV1]
+    have hK : HoldsKey Toy.keyK { Toy.rcptK with anonymous := true } :=
+      ⟨⟨Toy.rcptK.ident, .plain 3⟩, by simp [Ring.SecKey.comps, Toy.keyK], rfl, rfl⟩
+    have := e2e_roundtrip_partial Toy.prims Toy.toy_laws Toy.opts Toy.cfgB [Toy.payload n] (Toy.wf_B n hn) m hm
+      (.key Toy.keyK) (.key Toy.encV1 _ Toy.keyK rfl hr hK (by decide) (Toy.toy_pkLaw 3))
+      (by
+        intro e he
+        have : e = Toy.encV1 := by simpa [Toy.cfgB, Toy.cfgA] using he.symm
+        subst this
+        exact toy_key_opens_nothing_else Toy.encV1 (Or.inr rfl) rfl rfl)
+      [m] (by simp)
+    simpa [expected, Toy.cfgB, Toy.cfgA, Toy.flatten_payload, (by decide : be32 0 = [0, 0, 0, 0])] using this
+
+/-- the D18b shape on the toy primitives: the guard of `e2e_roundtrip_partial` FAILS for the legitimate
+second password of a SEIPDv1 message with two SKESK v4 — it "opens" the other recipient's packet to a
+plausible key (cipher 11, 16 octets) different from the session key; `e2e_toy cfg=D` in the
+correspondence run shows `readFull` rejecting it -/
+theorem e2e_d18b_guard_fails_on_toy :
+    ∃ e, Toy.cfgD.encryption = some e ∧ Toy.rcptP ∈ e.passwords ∧
+      ¬ NoForeignOpen Toy.prims Toy.cfgD (.password Toy.rcptP.pw) := by
+  refine ⟨_, rfl, by simp, ?_⟩
+  intro h
+  have := h _ rfl Toy.rcptQ (by simp)
+    (.v3_4 11 [15, 15, 15, 15, 15, 15, 15, 15, 15, 15, 15, 15, 15, 15, 15, 15]) (by decide +kernel)
+  revert this
+  decide
 
 end Rpgp.C01
